@@ -215,6 +215,32 @@ func c20Mode(o *cli.Opts, run *evid.Run, bin, mode, variant string) {
 	phase("concurrent8", 8, o.Pick(14, 200))
 	phase("concurrent16", 16, o.Pick(10, 200))
 	slow.Wait()
+	// "the metrics endpoint stays available while proofs are being generated", decided causally: six requests are
+	// INSIDE the prove handler (first half of the body sent, the rest withheld); a scrape must be answered and show all
+	// six in flight before any of them is allowed to continue
+	if pk := key + "/pending-6"; run.Wants(pk) && !(liveness.hung() && run.Violations() > 0) {
+		var pw sync.WaitGroup
+		var gates []chan struct{}
+		for i := 0; i < 6; i++ {
+			rq := validRequest(gen.RNG(o.Seed, fmt.Sprintf("%s/%d", pk, i)), ks)
+			rq.raw, rq.gate, rq.half, rq.class = "slow-body", make(chan struct{}), make(chan struct{}), "valid/upload-pending"
+			gates = append(gates, rq.gate)
+			pw.Add(1)
+			go func(i int) { defer pw.Done(); do(200+i, rq) }(i)
+			select {
+			case <-rq.half:
+			case <-time.After(30 * time.Second):
+			}
+		}
+		if !waitInFlight(srv.MetricsAddr, 6, 90*time.Second) {
+			run.Violate(pk, "with six prove requests pending inside the handler, the metrics endpoint did not (within 90 s) answer a scrape showing them in flight", nil)
+		}
+		run.Add("scrapes_with_six_pending", 1)
+		for _, g := range gates {
+			close(g)
+		}
+		pw.Wait()
+	}
 	// bursts of cheap requests that finish within microseconds of one another, each followed by a quiescent scrape:
 	// with nothing outstanding the in-flight gauge must read 0 (a gauge published out of order stays stuck until
 	// the next request overwrites it, so it has to be looked at between bursts, not only at the end)
